@@ -17,7 +17,8 @@
      the same bytes again (C04_rewrite);
    * reading: for every order of the script-info keys, every spelling of the section names, every pair of Format
      lines and every admissible cell encoding, a rendered document is read as the script info, styles and items it
-     denotes (C04_read_rendered; sections in the order script info, styles, events);
+     denotes (C04_read_rendered: sections in the order script info, styles, events; C04_read_sections: sections in
+     any order and number, comments and key lines interleaved);
    * junk lines, unknown sections and non-Dialogue events are ignored; LF / CR LF / CR and the byte-order mark; reader
      and writer never panic; style names with a leading '*' resolve; the bytes do not depend on the map order.
    Faithful domain of the model: floats that are k/1000 with |k| < 10^15 (other ParseFloat inputs are answered
@@ -25,7 +26,7 @@
 From Coq Require Import List ZArith NArith Bool.
 From Astisub Require Import Kit.Base Kit.Str Kit.Scan Model.Dur Model.Ssa.
 From Coq Require Import Permutation.
-From Astisub Require Import Proofs.EolProofs Proofs.SsaFields Proofs.SsaText Proofs.SsaRows Proofs.SsaDoc Proofs.SsaInfo Proofs.SsaInfoOrder Proofs.SsaIgnore Proofs.SsaOrder Proofs.SsaRepr Proofs.SsaRead.
+From Astisub Require Import Proofs.EolProofs Proofs.SsaFields Proofs.SsaText Proofs.SsaRows Proofs.SsaDoc Proofs.SsaInfo Proofs.SsaInfoOrder Proofs.SsaIgnore Proofs.SsaOrder Proofs.SsaRepr Proofs.SsaRead Proofs.SsaReadAny.
 Import ListNotations.
 
 (* ---- field codecs ---- *)
@@ -158,6 +159,18 @@ Theorem C04_read_rendered : forall hi b keys styles he fe erows scols ecols e,
   else Ok (mkAdoc (Some b) (styles_map sts) (map (fun ev => event_item ev (styles_map sts)) (map snd erows))).
 Proof. exact read_rendered. Qed.
 Print Assumptions C04_read_rendered.
+
+(* the same with the sections in ANY order and number (events before styles, several script info sections), comment
+   lines and key lines interleaved in any order inside the script info sections: the styles are looked up at the end *)
+Theorem C04_read_sections : forall b secs e, info_ok b ->
+  match secs with [] => True | x :: r => rsec_ok true x /\ Forall (rsec_ok false) r end ->
+  comments_of (flat_map entries_of secs) = an_comments b -> (forall f, In (IK f) (flat_map entries_of secs)) ->
+  let sts := flat_map styles_of secs in
+  read_ssa_lines (flat_map (rsec_lines b) secs) e =
+  if e then Err EIO
+  else Ok (mkAdoc (Some b) (styles_map sts) (map (fun ev => event_item ev (styles_map sts)) (flat_map events_of secs))).
+Proof. exact read_sections. Qed.
+Print Assumptions C04_read_sections.
 
 (* the item a Dialogue event denotes *)
 Theorem C04_item : forall ev m ls seps, ls <> [] -> Forall line_ok ls ->
